@@ -99,6 +99,21 @@ def norm_case_lit(cid, n):
     return (f"({cid}%nat, Norm (mkN {qt(n['X'])} {qv(n['w'])} {facs} {n['rank']}%nat {tape} {qv(n['w_impl'])} {facs2}))")
 
 
+def spec_case_lit(cid, c):
+    Y, U = c["Y"], c["U"]
+    return (f"({cid}%nat, SpecCert (mkSp {Y.shape[0]}%nat {Y.shape[1]}%nat {U.shape[1]}%nat {qm(Y)} {qm(c['Q'])} {qv(c['lam'])} {qm(U)}))")
+
+
+def proc_case_lit(cid, c):
+    X, M = c["X"], c["M"]
+    return (f"({cid}%nat, ProcCert (mkPc {X.shape[0]}%nat {M.shape[0]}%nat {X.shape[1]}%nat {qm(X)} {qm(M)} {qm(c['A'])} {qv(c['sg'])} {qm(c['B'])} {qm(c['P'])}))")
+
+
+def rep_case_lit(cid, c):
+    facs = "[" + "; ".join(qm(f) for f in c["facs"]) + "]"
+    return (f"({cid}%nat, CPReport (mkRp {qt(c['X'])} {qv(c['w'])} {facs} {c['k']}%nat {c['rank']}%nat {C.q(float(c['rel']))}))")
+
+
 # ----------------------------------------------------------------------------- generators
 def np_rng(rng):
     return np.random.RandomState(rng.randrange(2 ** 31 - 1))
@@ -294,13 +309,15 @@ def hals_objective(G, B, V, l1, l2):
 
 
 # ----------------------------------------------------------------------------- the runs
-BUDGET = {"quick": dict(cp=84, hals=36, ls=32, norm=12, reg=12, tk=10, cmtf=8, tkreg=8, tr=10), "thorough": dict(cp=480, hals=220, ls=200, norm=80, reg=50, tk=60, cmtf=50, tkreg=40, tr=60)}
+BUDGET = {"quick": dict(cp=84, hals=36, ls=32, norm=12, reg=12, tk=10, cmtf=8, tkreg=8, tr=10, spec=8, proc=8, rep=12),
+          "thorough": dict(cp=480, hals=220, ls=200, norm=80, reg=50, tk=60, cmtf=50, tkreg=40, tr=60, spec=60, proc=60, rep=80)}
+KINDS = ("cp", "hals", "ls", "norm", "reg", "tk", "cmtf", "tkreg", "tr", "spec", "proc", "rep")
 
 
 class Ctx:
     def __init__(self, chk, rng, tier):
         self.chk, self.rng, self.tier = chk, rng, tier
-        self.cands = {"cp": [], "hals": [], "ls": [], "norm": [], "reg": [], "tk": [], "cmtf": [], "tkreg": [], "tr": []}     # candidates for the exact (Coq) block check
+        self.cands = {k: [] for k in KINDS}     # candidates for the exact (Coq) block check
         self.cases, self.meta = [], []
         self.skipped_illcond = 0
         self.n_cp, self.n_hals, self.n_ls, self.n_norm, self.n_reg = 0, 0, 0, 0, 0
@@ -325,7 +342,7 @@ class Ctx:
     def select(self):
         self.n_kind = {}
         chosen = []
-        for kind in ("cp", "hals", "ls", "norm", "reg", "tk", "cmtf", "tkreg", "tr"):
+        for kind in KINDS:
             groups = {}
             for c in self.cands[kind]:
                 groups.setdefault(c[0], []).append(c)
@@ -454,7 +471,23 @@ def check_hooi_tape(ctx, entry, inputs, cap, hooi_only_after=0):
         orth = float(np.max(np.abs(U.T @ U - np.eye(r))))
         if orth > 1e-8 or got < best - 1e-9 * (float(np.sum(sv ** 2)) + 1e-300):
             ctx.chk.finding(entry, dict(inputs, svd_call=j), f"HOOI factor is not a set of leading left singular vectors: ||U'Y||^2 = {got!r} < {best!r} "
-                            f"or columns not orthonormal (defect {orth:.2e})", "C07_hooi_block_descent_partial (Ky Fan hypothesis)", observed=got, expected=best)
+                            f"or columns not orthonormal (defect {orth:.2e})", "C07_hooi_block_descent (attained Ky Fan value)", observed=got, expected=best)
+        # the spectral certificate of C07_ky_fan_bound: an INDEPENDENT eigen-decomposition of Y Y' (numpy eigh), sorted non-increasing;
+        # its contract is checked here in floats on every recorded call and in exact rationals (Corr.C07.spec_agree) on a budgeted subset
+        lam, Q = np.linalg.eigh(Y @ Y.T)
+        order = np.argsort(-lam, kind="stable")
+        lam, Q = np.maximum(lam[order], 0.0), Q[:, order]
+        ny = float(np.sum(Y * Y)) + 1e-300
+        m = Y.shape[0]
+        QtY = Q.T @ Y
+        cert_bad = (float(np.max(np.abs(Q.T @ Q - np.eye(m)))) > 1e-8 or float(np.max(np.abs(Q @ Q.T - np.eye(m)))) > 1e-8
+                    or float(np.max(np.abs(QtY @ QtY.T - np.diag(lam)))) > 1e-8 * ny or float(np.sum(lam[:r])) > got + 1e-8 * ny)
+        if cert_bad:
+            # not a statement about the implementation unless the attained value fails (reported above): numpy's own decomposition is off
+            ctx.skipped_illcond += 1
+        elif Y.shape[0] <= 5 and Y.shape[1] <= 16 and j % 3 == 0:
+            ctx.add_case("spec", spec_case_lit, dict(Y=Y, Q=Q, lam=lam, U=U),
+                         dict(entry=entry, inputs=dict(inputs, svd_call=j, kind="HOOI spectral certificate")))
 
 
 def check_p2_tape(ctx, entry, inputs, cap):
@@ -475,8 +508,13 @@ def check_p2_tape(ctx, entry, inputs, cap):
                 continue        # (numerically) rank-deficient cross product: the polar factor is not unique / ill conditioned
             if orth > 1e-8 or got < best - 1e-9 * (best + 1e-300):
                 ctx.chk.finding(entry, dict(inputs, projection_call=j, slice=i), f"PARAFAC2 projection is not the Procrustes maximiser: <P, X M'> = {got!r} < {best!r} "
-                                f"or columns not orthonormal (defect {orth:.2e})", "C07_parafac2_projection_descent_partial (Procrustes hypothesis)", observed=got, expected=best)
+                                f"or columns not orthonormal (defect {orth:.2e})", "C07_parafac2_projection_descent (attained Procrustes value)", observed=got, expected=best)
                 return
+            # the thin-SVD certificate of C07_procrustes_bound (independent numpy SVD of Z = X_i M_i'), exact check on a budgeted subset
+            if (i + j) % 4 == 0 and Xi.size <= 24 and P.shape[1] <= 3:
+                Ua, sg, Vh = np.linalg.svd(Z, full_matrices=False)
+                ctx.add_case("proc", proc_case_lit, dict(X=Xi, M=M, A=Ua, sg=sg, B=Vh.T, P=P),
+                             dict(entry=entry, inputs=dict(inputs, projection_call=j, slice=i, kind="PARAFAC2 Procrustes certificate")))
 
 
 def add_norm_case(ctx, entry, inputs, X, w, facs, zero_col=False):
@@ -506,6 +544,43 @@ def add_norm_case(ctx, entry, inputs, X, w, facs, zero_col=False):
     if X.size <= 40 and rank <= 3:
         ctx.add_case("norm", norm_case_lit, dict(X=X, w=w, facs=facs, rank=rank, tape=tape, w_impl=w2, facs_impl=f2),
                      dict(entry=entry, inputs=dict(inputs, kind="cp_normalize" + ("+zero column" if zero_col else ""))))
+
+
+def reported_is_objective(ctx, entry, inputs, X, iterates, errs):
+    """parafac reports sqrt(| ||X||^2 + cp_norm^2 - 2 iprod |) / ||X|| for the iterate it hands to the callback: by C07_cp_reported_is_sqerr
+    this is sqrt(||X - [[w; A..]]||^2) / ||X|| (also with l2_reg, normalisation, line search).  Float predicate on every iteration; one
+    iteration of small problems goes to Coq (Corr.C07.rep_agree: the model's formula == exact squared error == (reported * ||X||)^2)"""
+    if len(iterates) != len(errs) + 1 or not len(errs):
+        return
+    n2 = float(np.sum(X * X))
+    for i, e in enumerate(errs):
+        wts, fs = iterates[i + 1]
+        sq = float(np.sum((X - cp_full(wts, fs)) ** 2))
+        ctx.py_blocks += 1
+        if not abs(float(e) ** 2 * n2 - sq) <= 1e-8 * (n2 + sq):
+            ctx.chk.finding(entry, dict(inputs, iteration=i), f"reported error {float(e)!r} is not the error of the iterate handed to the callback: "
+                            f"(reported * ||X||)^2 = {float(e) ** 2 * n2!r}, ||X - [[w; A..]]||^2 = {sq!r}", "C07_cp_reported_is_sqerr",
+                            observed=float(e) ** 2 * n2, expected=sq)
+            return
+    if X.size <= 40 and fs[0].shape[1] <= 3:
+        i = ctx.rng.randrange(len(errs))
+        wts, fs = iterates[i + 1]
+        rank = fs[0].shape[1]
+        ctx.add_case("rep", rep_case_lit, dict(X=X, w=np.ones(rank) if wts is None else wts, facs=fs, k=X.ndim - 1, rank=rank, rel=float(errs[i])),
+                     dict(entry=entry, inputs=dict(inputs, iteration=i, kind="reported error")))
+
+
+def reported_matches(ctx, entry, inputs, errs, objs, tol=1e-6):
+    """the error reported after sweep t is the relative error of the iterate after sweep t (recomputed from a prefix run with the same seed):
+    ties the 'sequence of reported errors' to the objective the theorems speak about (C07_hooi_reported_monotone, C07_tr_reported_monotone,
+    C07_parafac2_reported_monotone, C07_cp_reported_monotone).  Absolute tolerance in relative-error units (sqrt of a cancellation)"""
+    for t, o in enumerate(objs):
+        if t < len(errs):
+            ctx.py_blocks += 1
+            if not abs(float(errs[t]) - float(o)) <= tol * (1.0 + float(o)):
+                ctx.chk.finding(entry, dict(inputs, sweep=t), f"reported error after sweep {t + 1} is {float(errs[t])!r} but the returned iterate has relative error {float(o)!r}",
+                                "C07_reported_error_is_objective", observed=float(errs[t]), expected=float(o))
+                return
 
 
 def cp_objective_rel(X, w, facs, lam=0.0):
@@ -616,6 +691,7 @@ def run_parafac(ctx, n_runs):
             objs = [cp_objective_rel(X, wts, fs, lam) for (wts, fs) in iterates]
             history_check(ctx, entry, inputs, objs, what="objective recomputed from callback iterates")
         add_cp_blocks(ctx, entry, inputs, cap, lam, max_blocks=4 if ctx.tier == "quick" else 6)
+        reported_is_objective(ctx, entry, inputs, X, iterates, errs)
         if "normalize" in variant and len(iterates) >= 2:
             # the state the implementation hands to cp_normalize after a sweep: previous weights, freshly updated factors
             wts, fs = iterates[rng.randrange(1, len(iterates))]
@@ -809,6 +885,7 @@ def run_tucker(ctx, n_runs):
             objs.append(float(np.linalg.norm(X - np.asarray(rec))) / float(np.linalg.norm(X)))
         if ok:
             history_check(ctx, entry, inputs, objs, what="objective recomputed from prefix runs")
+            reported_matches(ctx, entry, inputs, out[1][1], objs)
 
 
 def run_parafac2(ctx, n_runs):
@@ -859,6 +936,7 @@ def run_parafac2(ctx, n_runs):
             objs.append(math.sqrt(sum(float(np.sum((np.asarray(a) - np.asarray(b)) ** 2)) for a, b in zip(slices, rec))) / n2)
         if ok:
             history_check(ctx, entry, inputs, objs, what="objective recomputed from prefix runs")
+            reported_matches(ctx, entry, inputs, [out[1][1][t - 1] for t in prefixes if t - 1 < len(out[1][1])], objs)
 
 
 def run_p2_linestep(ctx, n_runs):
@@ -957,6 +1035,7 @@ def run_tr_als(ctx, n_runs):
         nx = float(np.linalg.norm(X))
         objs = [float(np.linalg.norm(np.asarray(tl.tr_to_tensor(cs)) - X)) / nx for cs in cores]
         history_check(ctx, entry, inputs, objs, what="objective recomputed from callback iterates")
+        reported_matches(ctx, entry, inputs, errs, objs)
         # one block for the exact check against the MODEL-derived sub-chain design matrix: cores before block d of sweep t are the
         # cores of sweep t for the modes < d and of sweep t-1 (t = 1: the initial guess) for the others (callback iterates)
         if len(cores) >= 2 and X.size <= 40 and all(len(c) == nd for c in cores):
@@ -1028,6 +1107,18 @@ def run_cmtf(ctx, n_runs):
             # the CP block correspondence with G = kr'kr and MTTKRP = unfolded kr taken from the implementation's captured design
             # matrix (so a wrong Khatri-Rao pairing shows up as a system mismatch); factors before the block = lstsq answers so far
             n_it = len(cap.lstsq) // per
+            # the reported error of sweep t IS the coupled objective of the iterate after sweep t (C07_cmtf_history_monotone speaks about it)
+            for t in range(min(n_it, len(errs))):
+                Ft = [cap.lstsq[t * per + 3]["X"].T, cap.lstsq[t * per + 2]["X"].T, cap.lstsq[t * per + 1]["X"].T]
+                Vt_ = cap.lstsq[t * per + 0]["X"].T
+                if [f.shape[0] for f in Ft] != list(shape) or Vt_.shape != (q, rank):
+                    break
+                val = float(np.sum((X - cp_full(np.ones(rank), Ft)) ** 2) + np.sum((Y - Ft[0] @ Vt_.T) ** 2))
+                ctx.py_blocks += 1
+                if not abs(val - float(errs[t])) <= 1e-9 * (n2 + val):
+                    chk.finding(entry, dict(inputs, sweep=t), f"reported error {float(errs[t])!r} of sweep {t + 1} is not the coupled objective {val!r} of its iterate",
+                                "C07_reported_error_is_objective", observed=float(errs[t]), expected=val)
+                    break
             for _ in range(1 if ctx.tier == "quick" else 2):
                 t = rng.randrange(1, n_it)
                 F = [cap.lstsq[(t - 1) * per + 3]["X"].T.copy(), cap.lstsq[(t - 1) * per + 2]["X"].T.copy(), cap.lstsq[(t - 1) * per + 1]["X"].T.copy()]
@@ -1200,7 +1291,7 @@ def run(chk):
     chk.checker_cmds.append("coqc (vm_compute, Qops) on generated build/cases/C07/*.v: Corr.C07.failing")
     chk.cov["traces_validated_against_impl"] = n_eval
     chk.cov["exhaustive"] = False
-    chk.cov["block_cases"] = dict(cp_blocks=ctx.n_cp, hals_chains=ctx.n_hals, ls_blocks=ctx.n_ls, normalisations=ctx.n_norm, regressor_blocks=ctx.n_reg, hooi_blocks=ctx.n_kind.get("tk", 0), cmtf_coupled_blocks=ctx.n_kind.get("cmtf", 0), tucker_regressor_blocks=ctx.n_kind.get("tkreg", 0), tensor_ring_blocks=ctx.n_kind.get("tr", 0), float_block_predicates=ctx.py_blocks,
+    chk.cov["block_cases"] = dict(cp_blocks=ctx.n_cp, hals_chains=ctx.n_hals, ls_blocks=ctx.n_ls, normalisations=ctx.n_norm, regressor_blocks=ctx.n_reg, hooi_blocks=ctx.n_kind.get("tk", 0), cmtf_coupled_blocks=ctx.n_kind.get("cmtf", 0), tucker_regressor_blocks=ctx.n_kind.get("tkreg", 0), tensor_ring_blocks=ctx.n_kind.get("tr", 0), hooi_spectral_certificates=ctx.n_kind.get("spec", 0), parafac2_procrustes_certificates=ctx.n_kind.get("proc", 0), reported_error_cases=ctx.n_kind.get("rep", 0), float_block_predicates=ctx.py_blocks,
                                   candidates={k: len(v) for k, v in ctx.cands.items()})
     chk.cov["skipped_ill_conditioned"] = ctx.skipped_illcond
     chk.cov["rule"] = ("seeded well-conditioned problems (low rank + noise; dense / nearly collinear ones for the line search), orders 2-4, rank 1-3: every algorithm "
@@ -1224,7 +1315,7 @@ def run(chk):
         chk.disagreement(f"corr:C07 {kind} block (Model/Descent.v vs {descr['entry']})", dict(kind=kind, **descr))
         # turn the disagreement into a failing input: the run whose captured block disagrees with the model
         inp = dict(descr["inputs"]); inp["block_kind"] = kind
-        for k in ("G", "B", "A", "Y", "X", "M", "xnew", "w", "facs", "iterates", "mode", "lam", "prev", "l1", "l2", "eps", "tape", "w_impl", "facs_impl", "Xs", "ys", "reg", "rs", "before", "after", "core", "V", "Us", "newcore", "newfac", "cores", "dim", "new", "design"):
+        for k in ("G", "B", "A", "Y", "X", "M", "xnew", "w", "facs", "iterates", "mode", "lam", "prev", "l1", "l2", "eps", "tape", "w_impl", "facs_impl", "Xs", "ys", "reg", "rs", "before", "after", "core", "V", "Us", "newcore", "newfac", "cores", "dim", "new", "design", "Q", "lam", "U", "P", "sg", "rel", "k", "rank"):
             if k in payload and k not in inp:
                 inp["block_" + k] = payload[k]
         chk.finding(descr["entry"], inp, f"{kind} block: the implementation's block state disagrees with the exact model block "
